@@ -71,6 +71,11 @@ def corpus():
                                '/e/<v:re:[a-c]+$>'])
                    + _probes(['/items/42', '/items/4x', '/n/7', '/w/xab', '/w/ab', '/b/abc', '/s/ab/t', '/s/ab',
                               '/d/75', '/d/7', '/e/abc', '/e/ab/c', '/e/abx'])))
+    # a path wildcard looks ahead for the WHOLE literal that follows it (up to the next wildcard), not for a part of it
+    cs.append(dict(cmds=_adds(['/doc/<p:path>/end/:y', '/w/<p.path()>/edit/<rev:int>', '/q/{p:path}/x/y', '/z/<p:path>.tar.gz'])
+                   + _probes(['/doc/a/end/endive', '/doc/a/b/end/end', '/doc/a/end/b', '/doc/end/end/end', '/w/a/edit/edit/3',
+                              '/w/a/editor/edit/4', '/q/a/x/x/y', '/q/a/xy/x/y', '/q/a/x/y/x/y', '/z/a.tar/b.tar.gz',
+                              '/z/a.tar.gz.tar.gz'])))
     # adjacent wildcards, wildcard that swallows nothing in the middle
     cs.append(dict(cmds=_adds(['/w/<a><b>', '/w/<a:int><b>/k']) + _probes(['/w/x', '/w/12ab/k', '/w/12/k', '/w/'])))
     return cs
@@ -96,9 +101,31 @@ def _family(rng):
     return out, '/' + '/'.join(lits)
 
 
+def _path_family(rng):
+    """/pre/<p:path> followed by a literal of >= 2 segments and/or a further wildcard; request paths contain text that
+    only STARTS like (a part of) that literal"""
+    pre = rng.choice(['doc', 'w', 'q'])
+    l1 = rng.choice(['end', 'edit', 'x', 'a.b'])
+    tail = rng.choice([[('L', l1), ('L', rng.choice(['y', l1, 'z']))], [('L', l1), ('W', 'y', rng.choice(['plain', 'int']))],
+                       [('L', l1), ('L', 'k'), ('W', 'y', 'plain')]])
+    segs = [[('L', pre)], [('W', 'p', 'path')]] + [[t] for t in tail]
+    rule = L.render_rule(rng, segs)
+    paths = []
+    for _k in range(5):
+        mid = '/'.join(rng.choice(['a', 'b', l1, l1 + 'ive', l1[:1], 'k']) for _j in range(rng.randrange(1, 4)))
+        end = '/'.join((t[1] if t[0] == 'L' else rng.choice(['7', l1, l1 + 'ive', 'v'])) for t in tail)
+        paths.append('/%s/%s/%s' % (pre, mid, rng.choice([end, end + 'x', l1 + '/' + end, end + '/' + l1])))
+    return rule, segs, paths
+
+
 def gen(rng, n):
     n_mal = n // 12
     for _ in range(n - n_mal):
+        if rng.random() < 0.08:
+            rule, segs, paths = _path_family(rng)
+            other = L.gen_rule(rng)
+            yield dict(cmds=_adds([rule, other[0]]) + _probes(paths + [L.instantiate(rng, other[1])]))
+            continue
         if rng.random() < 0.3:
             base, hit = _family(rng)
             order = list(base)
@@ -234,6 +261,58 @@ def oracle(case, obs):
     return L.traced(_oracle, case, obs)
 
 
+import re as _re
+
+_TOKEN = _re.compile(r'<[^>]*>|\{[^}]*\}|:[A-Za-z_]\w*|:')
+_INNER = _re.compile(r'^(?:(?P<name>[A-Za-z_]\w*)?(?:[:.](?P<f1>int|float|path|re)(?:\(\))?(?::(?P<a1>.*)|\((?P<a2>.*)\))?)?'
+                     r'|(?P<f2>int|float|path|re)\((?P<a3>.*)\))$')
+
+
+def _independent_filters(rule):
+    """the filters of a rule derived from its TEXT only (the generator's syntax flavours), as the rule-by-rule
+    semantics defines them: int = -?\\d+ -> int, float = -?\\d+(\\.\\d+)? -> float, re:RX = RX, and a path wildcard =
+    `.+` up to (look-ahead) the WHOLE literal text that follows it in the rule up to the next wildcard, or to the end
+    of the path if nothing follows.  Returns None when the text is not in the known flavours."""
+    toks = list(_TOKEN.finditer(rule))
+    out = []
+    for k, t in enumerate(toks):
+        txt = t.group()
+        if txt.startswith(':'):
+            out.append(None)
+            continue
+        m = _INNER.match(txt[1:-1])
+        if not m:
+            return None
+        kind = m.group('f1') or m.group('f2')
+        arg = m.group('a1') if m.group('a1') is not None else m.group('a2') if m.group('a2') is not None else m.group('a3')
+        if kind is None:
+            out.append(None)
+        elif kind == 'int':
+            out.append(_mk(r'-?\d+', int))
+        elif kind == 'float':
+            out.append(_mk(r'-?\d+(\.\d+)?', float))
+        elif kind == 're':
+            if arg is None:
+                return None
+            out.append(_mk(arg, None))
+        else:
+            nxt = toks[k + 1].start() if k + 1 < len(toks) else len(rule)
+            lit = rule[t.end():nxt]
+            out.append(_mk('.+(?=%s)' % _re.escape(lit) if lit else '.+$', None))
+    return out
+
+
+def _mk(rx, conv):
+    c = _re.compile(rx)
+
+    def f(s):
+        m = c.match(s)
+        if not m:
+            return None, 0, None
+        return (conv(m.group()) if conv else m.group()), m.end(), None
+    return f
+
+
 _SMOKE = []
 
 
@@ -345,14 +424,19 @@ def _oracle(case, obs):
             if taken and not c.get('overwrite'):
                 return 'registration of %r %s accepted although the method is taken' % (c['rule'], ms)
             if ent is None:
-                ent = table[pattern] = dict(flat=fl, filters=filters, methods={}, rule=c['rule'], pattern=pattern)
+                ind = _independent_filters(c['rule'])
+                if ind is not None and len(ind) != len(filters):
+                    return 'rule %r: %d wildcards in the text, the parser made %d' % (c['rule'], len(ind), len(filters))
+                ent = table[pattern] = dict(flat=fl, filters=filters, ifilters=ind if ind is not None else filters,
+                                            methods={}, rule=c['rule'], pattern=pattern)
             for m in ms:
                 ent['methods'][m] = (c['h'], params)
         elif c['op'] in ('dispatch', 'resolve_route'):
             sp = c['path'].strip('/')
             hits = []
             for p, e in table.items():
-                vals = L.plain_match(e['pattern'], e['filters'], sp)
+                # filters rebuilt from the rule text: independent of Parser and FilterFactory
+                vals = L.plain_match(e['pattern'], e['ifilters'], sp)
                 if vals is not None:
                     hits.append((e, vals))
             best = [(e, v) for e, v in hits if all(e2 is e or L.better(e['flat'], e2['flat']) for e2, _v in hits)]
